@@ -794,7 +794,9 @@ class Interp:
                 v = b.f[e['n']]
                 yield v, s
             elif isinstance(b, Handle):
-                yield Handle(b.path + (e.get('n'),)), s
+                if e.get('n') == 'second' and b.path and isinstance(b.path[-1], tuple) and b.path[-1][0] == 'at': yield b, s
+                elif e.get('n') == 'first' and b.path and isinstance(b.path[-1], tuple) and b.path[-1][0] == 'at': yield Opaque(b.path[-1][1]) if isinstance(b.path[-1][1], str) else Handle(b.path[-1][1]), s
+                else: yield Handle(b.path + (e.get('n'),)), s
             elif isinstance(b, Opaque) and b.tag.startswith('obj:'):
                 yield Opaque(b.tag + '.' + e.get('n')), s
             else: raise Unmodelled('member %s of %r' % (e.get('n'), b))
@@ -838,6 +840,14 @@ class Interp:
             r = h(self, e, ov, av, st)
             if r is not None:
                 yield from r; return
+        # iterators into an associative structure whose entries exist (coverage fills its result map for every rule of the grammar before the parse starts):
+        # find( key ) is the entry, it never equals end(); it->second is the entry itself, it->first the key
+        if isinstance(ov, Handle) and cn in ('end', 'cend') and not av:
+            yield Opaque('end-iter'), st; return
+        if cn in ('operator!=', 'operator==') and len(av) == 2 and any(isinstance(x, Opaque) and x.tag == 'end-iter' for x in av) and any(isinstance(x, Handle) for x in av):
+            yield Val.const(int(cn == 'operator!=')), st; return
+        if isinstance(ov, Handle) and cn == 'operator->' and not av:
+            yield ov, st; return
         if isinstance(ov, Handle) and cn in ('at', 'operator[]', 'find') and len(av) == 1:
             k = av[0]
             key = k.tag if isinstance(k, Opaque) else (k.path if isinstance(k, Handle) else repr(k))
